@@ -125,7 +125,7 @@ func (m *SynchronizedMemory) postMapUnmap() bool {
 	return false
 }
 
-func (m *SynchronizedMemory) RecordSuballocSubfree() bool {
+func (m *SynchronizedMemory) RecordSuballocSubfree(driver core1_0.DeviceDriver) bool {
 	m.mapMutex.Lock()
 	defer m.mapMutex.Unlock()
 
@@ -136,7 +136,15 @@ func (m *SynchronizedMemory) RecordSuballocSubfree() bool {
 		m.delayCounter = 0
 		if m.statusCounter <= -2 {
 			m.statusCounter = 0
-			m.extraMapping = false
+			if m.extraMapping {
+				m.extraMapping = false
+
+				// The extra mapping was the last thing keeping the memory mapped
+				if m.mapReferences == 0 && m.mapData != nil {
+					driver.UnmapMemory(m.memory)
+					m.mapData = nil
+				}
+			}
 			return true
 		}
 	}
